@@ -1,4 +1,4 @@
-PROPS = ["CTV.Props.C10"]
+PROPS = ["CTV.Props.C10", "CTV.Props.C10Tie", "CTV.Model.DerTieSpec"]
 HARNESS = [dict(pkg="./asn1/", test="TestVerifC10", timeout=900)]
 RULE = ("generated target types (reflect.StructOf with asn1:\"...\" tags, nesting <= 4, every supported kind and field parameter) x byte strings "
         "(type-directed valid DER with seeded malformations, structure-preserving mutations, random); every case is decoded by the fork strictly, "
